@@ -53,6 +53,7 @@ type LoopContract struct {
 type FuncContract struct {
 	deadCount int
 	ignore    []string // callees whose contracts are not used in this body
+	only      []string // if non-empty: the only callees whose contracts are used in this body
 	cbObserves map[string]string // callback <param> observes <ghost>
 	asserts   map[ast.Stmt][]*Clause // at "<stmt>" assert P
 	expand    []string // callees expanded from source in this body
@@ -363,7 +364,7 @@ func installUniverse() {
 
 var clauseKinds = map[string]bool{"guard": true, "callback": true, "step": true, "requires": true, "ensures": true, "invariant": true, "decreases": true,
 	"modifies": true, "props": true, "trusted": true, "pure": true, "inline": true, "unroll": true, "lemma": true,
-	"assume": true, "nopanic": true, "dead": true, "expand": true, "ignore": true, "assert": true, "heapframe": true}
+	"assume": true, "nopanic": true, "dead": true, "expand": true, "ignore": true, "only": true, "assert": true, "heapframe": true}
 
 var headRe = regexp.MustCompile(`^func\s+(.+)$`)
 var clauseRe = regexp.MustCompile(`^(?:(loop|closure|if)#(\d+)\s+)?([a-z]+)(?:\[([A-Za-z0-9, ]+)\])?(?:\s+(.*))?$`)
@@ -1332,6 +1333,10 @@ func (p *Program) fillContract(fc *FuncContract, clauses []*rawClause, body *ast
 			// ignore <func>...: in this body, calls of these functions are treated as calls without a contract
 			// (arbitrary results, no precondition to prove, nothing of their postcondition assumed)
 			fc.ignore = append(fc.ignore, strings.Fields(rc.text)...)
+		case "only":
+			// only <func>...: in this body, contracts are used only for these callees; every other call with a
+			// contract is treated as a call without one (lemma-level contracts on large functions)
+			fc.only = append(fc.only, strings.Fields(rc.text)...)
 		case "dead":
 			// dead returns n: exactly n return statements are unreachable under the callee contracts (defensive
 			// error checks after calls that cannot fail there); the count is checked, not ordinals, so that adding
